@@ -353,7 +353,12 @@ func c12Skeletons(r *Run) {
 				for k, sp := range spans {
 					sb.WriteString(c.Src[prev:sp[0]])
 					if k == 0 || k == len(spans)-1 || (i+k)%2 == 0 {
-						sb.WriteString("{# note " + strconv.Itoa(k) + " #}")
+						if (i/3)%2 == 0 {
+							sb.WriteString("{# note " + strconv.Itoa(k) + " #}")
+						} else {
+							// a comment of several lines that comments OUT tags (an opener, a closer, a print)
+							sb.WriteString("{# disabled " + strconv.Itoa(k) + ":\n  {% if old == 1 %}\n\t{%= old %}{% endfor %}\n  {% endswitch %} {% endif %}\n#}")
+						}
 					}
 					sb.WriteString(c.Src[sp[0]:sp[1]])
 					prev = sp[1]
